@@ -86,6 +86,7 @@ func c04(c *Ctx) {
 	}
 	// ---- strict mode reject
 	c04strict(c)
+	c04podgroup(c)
 
 	// ---- LOCK
 	r.Rule("LOCK: Gang.{Children,PendingChildren,WaitingForBindChildren,BoundChildren} are read under Gang.lock and written under the write lock")
@@ -308,6 +309,53 @@ func c04switch(c *Ctx, fn *ssa.Function) {
 	r.Check(ok, "PATH", fkey(fn)+"/allow-only-on-success", c.Pos(fn.Pos()), "AllowGangGroup only under status == Success", "AllowGangGroup is not (only) called under status == core.Success")
 }
 
+// c04podgroup: every PodGroup add/update reaches the gang's (re-)initialisation.
+func c04podgroup(c *Ctx) {
+	r := c.R
+	r.Rule("PATH(podgroup events): in GangCache.onPodGroupAdd/onPodGroupUpdate, for an event that carries a PodGroup whose gang is in the cache, no return is reachable without gang.tryInitByPodGroup(<the new PodGroup>): mode, match policy, gang groups and total number live in annotations, so no update may be skipped on the strength of an unchanged spec")
+	for _, name := range []string{"onPodGroupAdd", "onPodGroupUpdate"} {
+		fn := c.Fn(gangCorePkg, "GangCache", name)
+		if fn == nil {
+			continue
+		}
+		newObj := fn.Params[len(fn.Params)-1]
+		facts := an.Facts{}
+		var pg ssa.Value
+		for _, b := range fn.Blocks {
+			for _, in := range b.Instrs {
+				switch x := in.(type) {
+				case *ssa.TypeAssert:
+					if x.X == ssa.Value(newObj) && x.CommaOk {
+						facts[extract(x, 1)] = an.True
+						pg = extract(x, 0)
+					}
+				case *ssa.BinOp:
+					if call, _ := an.ResultOfCall(x.X); call != nil && an.ShortCallee(&call.Call) == "getGangFromCacheByGangId" && an.IsNilConst(x.Y) {
+						if x.Op == token.EQL {
+							facts[x] = an.False
+						} else if x.Op == token.NEQ {
+							facts[x] = an.True
+						}
+					}
+				}
+			}
+		}
+		if pg == nil {
+			r.Unknown("PATH", fkey(fn)+"/reaches-init", c.Pos(fn.Pos()), "type assertion of the event object to *PodGroup not found")
+			continue
+		}
+		reach := an.Explore(fn, nil, facts, func(in ssa.Instruction) bool {
+			cl, ok := in.(ssa.CallInstruction)
+			return ok && an.ShortCallee(cl.Common()) == "tryInitByPodGroup" && cl.Common().Args[1] == pg
+		})
+		var bad []string
+		for _, ret := range reach.Returns() {
+			bad = append(bad, c.InstrPos(ret))
+		}
+		r.Check(len(bad) == 0, "PATH", fkey(fn)+"/reaches-init", c.Pos(fn.Pos()), "every PodGroup event re-initialises the gang from the new object", "a PodGroup event can be dropped before tryInitByPodGroup (return at "+strings.Join(bad, ",")+"): an update that only changes the gang annotations (mode, match policy, groups) is lost for good")
+	}
+}
+
 func c04strict(c *Ctx) {
 	r := c.R
 	r.Rule("PATH: in PodGroupManager.Unreserve, from behind delAssumedPod with {isGangOnceResourceSatisfied()==false, getGangMode()==Strict}, no return is reachable without passing rejectGangGroupById; same in AfterPostFilter from behind the once-satisfied test")
@@ -361,5 +409,45 @@ func c04strict(c *Ctx) {
 		}
 		r.Check(len(bad) == 0, "PATH", key, c.InstrPos(start), "in strict mode every path rejects the gang group before returning",
 			"in strict mode (group not once-satisfied) a return is reachable without rejecting the gang group, at "+strings.Join(bad, ","))
+		// second scenario: the once-satisfied exemption applies to the once-satisfied match policy only
+		facts2 := an.Facts{}
+		var start2 ssa.Instruction = start
+		nPol := 0
+		for _, cl := range an.Calls(fn, false) {
+			switch an.ShortCallee(cl.Common()) {
+			case "getGangMatchPolicy":
+				for _, ref := range *cl.Value().Referrers() {
+					if b, ok := ref.(*ssa.BinOp); ok && (b.Op == token.EQL || b.Op == token.NEQ) {
+						if s, ok := constString(b.Y); ok && strings.Contains(s, "once-satisfied") {
+							facts2[b] = an.False
+							if b.Op == token.NEQ {
+								facts2[b] = an.True
+							}
+							nPol++
+						}
+					}
+				}
+				if name == "AfterPostFilter" && start2 == start {
+					start2 = cl
+				}
+			case "getGangMode":
+				for _, ref := range *cl.Value().Referrers() {
+					if b, ok := ref.(*ssa.BinOp); ok && b.Op == token.EQL {
+						facts2[b] = an.True
+					}
+				}
+			}
+		}
+		if nPol == 0 {
+			r.Fail("PATH", key+"/other-match-policies", c.Pos(fn.Pos()), "the once-satisfied exemption is not qualified by a comparison of getGangMatchPolicy() with the once-satisfied policy: for the other match policies a strict gang that was satisfied before is no longer rejected as a whole")
+			continue
+		}
+		reach = an.Explore(fn, an.After(start2), facts2, func(in ssa.Instruction) bool { return isRej[in] })
+		bad = nil
+		for _, ret := range reach.Returns() {
+			bad = append(bad, c.InstrPos(ret))
+		}
+		r.Check(len(bad) == 0, "PATH", key+"/other-match-policies", c.InstrPos(start2), "with a match policy other than once-satisfied a strict gang is rejected whether or not it was satisfied before",
+			"in strict mode with a match policy other than once-satisfied a return is reachable without rejecting the gang group, at "+strings.Join(bad, ","))
 	}
 }
